@@ -17,6 +17,16 @@ pub struct RunResult {
 }
 
 pub fn run_scenario(scn: &Scenario, hooks: bool, x: &ExploreOpts) -> RunResult {
+    run_scenario_with(scn, hooks, x, None).0
+}
+
+/// Picks the next driver step among the enabled ones (random walks without re-execution).
+pub type Chooser<'a> = &'a mut dyn FnMut(&[Step]) -> Option<Step>;
+
+/// As `run_scenario`; with a chooser, the last `Runs` phase continues after its recorded steps with the steps
+/// the chooser picks, one at a time, until nothing is enabled or the chooser stops. Returns the steps taken.
+pub fn run_scenario_with(scn: &Scenario, hooks: bool, x: &ExploreOpts, mut online: Option<Chooser>) -> (RunResult, Vec<Step>) {
+    let mut taken: Vec<Step> = Vec::new();
     let w = World::new(hooks);
     #[cfg(feature = "hooks")]
     {
@@ -40,8 +50,22 @@ pub fn run_scenario(scn: &Scenario, hooks: bool, x: &ExploreOpts) -> RunResult {
                 Phase::Runs { runs, steps } => {
                     let mut ex = Exec::new(w.clone(), gp, runs);
                     ex.tokio = scn.tokio;
+                    ex.burn = scn.burn.clone();
                     ex.run_steps(steps);
+                    taken = steps.clone();
                     enabled = ex.enabled(x);
+                    if let Some(choose) = online.as_mut() {
+                        while !enabled.is_empty() {
+                            match choose(&enabled) {
+                                Some(st) => {
+                                    ex.run_steps(std::slice::from_ref(&st));
+                                    taken.push(st);
+                                    enabled = ex.enabled(x);
+                                }
+                                None => break,
+                            }
+                        }
+                    }
                     let mark = w.borrow().log.len();
                     ex.finish();
                     // `cancel` events caused by tearing the scenario down are not observations.
@@ -56,10 +80,13 @@ pub fn run_scenario(scn: &Scenario, hooks: bool, x: &ExploreOpts) -> RunResult {
                         // Graph state after a panic is not trusted; leak it.
                         drop(world);
                         std::mem::forget(ex);
-                        return RunResult {
-                            trace: std::mem::take(&mut w.borrow_mut().log),
-                            enabled: Vec::new(),
-                        };
+                        return (
+                            RunResult {
+                                trace: std::mem::take(&mut w.borrow_mut().log),
+                                enabled: Vec::new(),
+                            },
+                            taken,
+                        );
                     }
                 }
             }
@@ -70,7 +97,7 @@ pub fn run_scenario(scn: &Scenario, hooks: bool, x: &ExploreOpts) -> RunResult {
     }
     w.borrow_mut().drain_hooks();
     let trace = std::mem::take(&mut w.borrow_mut().log);
-    RunResult { trace, enabled }
+    (RunResult { trace, enabled }, taken)
 }
 
 fn pad(v: &[Vec<usize>], n: usize) -> Vec<Vec<usize>> {
